@@ -303,6 +303,16 @@ theorem C16_events_no_panic_partial (env : Env) (ops : List VOp) : (runV env Vie
       rw [this, applyV_crashed env v op ha]
   exact this ops View.empty (agree_empty env)
 
+/-- non-vacuity: a history with a batch for known, unknown and removed addresses, a refresh that replaces and removes
+hosts, a connect and a connect failure -/
+example :
+    let env : Env := ⟨fun h => h.id == 9, fun _ => true, false, false, false⟩
+    (runV env View.empty [.addInitial ⟨1, 1, 7, 7⟩, .addInitial ⟨2, 2, 8, 8⟩, .batch [.status .down 8, .status .up 99, .topology],
+      .refresh [⟨3, 1, 17, 17⟩, ⟨4, 3, 5, 5⟩], .batch [.status .up 8, .status .down 7, .status .down 17], .connected 3,
+      .connectFailed 1, .removeHost 3, .down 5]).crashed = false ∧
+    (runV env View.empty [.addInitial ⟨1, 1, 7, 7⟩, .addInitial ⟨2, 2, 8, 8⟩, .batch [.status .down 8, .status .up 99, .topology],
+      .refresh [⟨3, 1, 17, 17⟩, ⟨4, 3, 5, 5⟩]]).refreshReq = 2 := by decide
+
 /-- the excluded case is real (kernel-checked; replayable on the real code: `evhost 1 1 7 7 1 p`,
 `evhost 2 1 8 7 1 l`, `evadd 1`, `evaddu 2`, `evrm 1`, `evdown 7`): a peer-sourced host (peer 7) is
 updated from a local-sourced report of the same host id with broadcast_address 8, removed, and a DOWN
@@ -540,6 +550,15 @@ theorem C16_topology_one_refresh (env : Env) (v : View) (b : List Ev) (hb : ∀ 
   simp only [Bool.not_false, Bool.and_self, ↓reduceIte, List.foldl_nil]
   split <;> rfl
 
+/-- non-vacuity: 3 NEW_NODE / REMOVED_NODE events, UP for two unknown addresses (one of them twice, one followed by
+DOWN), UP for a known one: 1 + 1 requests -/
+example :
+    let env : Env := ⟨fun _ => false, fun _ => true, false, false, false⟩
+    let v := View.empty.addInitial env ⟨1, 1, 7, 7⟩
+    let b : List Ev := [.topology, .status .up 50, .topology, .status .up 50, .status .up 60, .status .down 60, .topology, .status .up 7]
+    (v.handleBatch env b).refreshReq = 2 ∧ ((coalesce b).filter (unknownUp v.ring)).length = 1 ∧
+    (v.handleBatch env [.topology, .topology, .topology]).refreshReq = 1 := by decide
+
 /-- `C16_refresh_debounced` (the refresh debouncer, all interleavings of requests, timer and flusher; logical
 time): from ANY state of the debouncer, if every `debounce()` of the run happens within one interval of
 its start (and nobody calls `refreshNow()`), at most TWO refreshes are started in the whole run, however
@@ -636,6 +655,14 @@ theorem C16_new_host_in_policy_partial (env : Env) (v : View) (ha : Agree env v)
     exact List.mem_map.mpr ⟨(y.id, y), lookup_some_mem _ _ _ (ha.pol y this), rfl⟩
   exact (newPol_refresh env v reported hprov).inpol s hs hnew hfresh
 
+/-- non-vacuity: a new node on an address of its own is in the policy after the refresh -/
+example :
+    let env : Env := ⟨fun _ => false, fun _ => true, false, false, false⟩
+    let a : RHost := ⟨1, 1, 7, 7⟩
+    let c : RHost := ⟨3, 3, 9, 9⟩
+    let v := View.empty.addInitial env a
+    FreshConn env v.ring [a, c] c ∧ c ∈ (v.refresh env [a, c]).1.pol.loc := by decide
+
 /-- the excluded case is real (kernel-checked; replay on the real code: `reset evc rr - 2 1:0:2:2:1:1:2;2:3:3:0:1:1:2`
 then `evrefresh 1:0:2:2:1:1:2;3:3:3:0:1:1:2`): the node at address 8 (host id 2) is replaced by a node with host id 3
 on the same address — after the refresh the new node is in the ring and has a pool, but the policy
@@ -690,6 +717,9 @@ theorem debounced_overflow (l : List Ev) (hl : l.length = eventBufferSize) (extr
   unfold debounced
   rw [List.foldl_append, foldl_debounceAdd l [] (by rw [hl]; exact Nat.le_of_eq (Nat.zero_add _))]
   exact foldl_debounceAdd_full _ _ hl
+
+example : debounced [.topology, .status .up 7, .status .down 7] = [.topology, .status .up 7, .status .down 7] :=
+  C16_event_buffer_partial _ (by decide)
 
 theorem lastStatus_replicate (n : Nat) (c : Change) (a : Nat) (hn : 0 < n) : lastStatus (List.replicate n (Ev.status c a)) a = some c := by
   induction n with
